@@ -55,6 +55,34 @@ def r2p(k, strand, force_compound=False):
     return fn
 
 
+def many_blocks(k, strand, which):
+    """locations with MANY blocks (size-dependent code paths such as a binary search over cumulative lengths only start at some block count):
+    k blocks of symbolic common length and common gap plus one symbolic extra length on a symbolic block, so block boundaries stay fully symbolic"""
+
+    def fn(s0, L, G, x, r):
+        bl, cur = [], s0
+        for i in range(k):
+            n = L + (x if i == k // 3 else 0)
+            bl.append((cur, cur + n))
+            cur = cur + n + G
+        loc = make_location(bl, strand, force_compound=True)
+        if which == "r2p":
+            in_range = AND(r >= 0, r < total_len(bl))
+            try:
+                got = loc.relative_to_parent_pos(r)
+            except REFUSE:
+                return NOT(in_range)
+            return AND(in_range, got == walk_pos(bl, strand, r), loc.parent_to_relative_pos(got) == r)
+        inside = member(r, bl)
+        try:
+            got = loc.parent_to_relative_pos(r)
+        except InvalidPositionException:
+            return NOT(inside)
+        return AND(inside, got == rel_of_pos(bl, strand, r), loc.relative_to_parent_pos(got) == r)
+
+    return fn
+
+
 # ------------------------------------------------------------------ 2. parent -> relative
 def p2r(k, strand, force_compound=False):
     def fn(**kw):
@@ -425,6 +453,16 @@ def obligations(tier):
                            budget=400, cost=60,
                            desc="parent_to_relative_location(Q), 2x2 blocks without empty blocks/0-bp gaps: r in result <=> r-th base of L in Q",
                            bounds="L k=2, Q k=2, lengths>=1, gaps>=1, unbounded ints", examples=[_ex(2, q=2, r=1)]))
+    # many blocks
+    for strand in (PLUS, MINUS):
+        for k in ((17,) if tier == "quick" else (17, 40)):
+            for which in ("r2p", "p2r"):
+                out.append(Obl("%s_many_k%d_%s" % (which, k, sname(strand)), many_blocks(k, strand, which), dict(s0=int, L=int, G=int, x=int, r=int),
+                               lambda s0, L, G, x, r: s0 >= 0 and L >= 1 and G >= 1 and x >= 0, budget=900, cost=60,
+                               desc="%d-block location (common symbolic block length and gap, one block longer by a symbolic amount): %s equals the block walk and is "
+                                    "inverted by the other map; positions outside refused" % (k, "relative_to_parent_pos" if which == "r2p" else "parent_to_relative_pos"),
+                               bounds="k=%d blocks, unbounded symbolic start / length / gap / extra length / position" % k,
+                               examples=[dict(s0=100, L=7, G=3, x=2, r=7), dict(s0=100, L=7, G=3, x=0, r=116)]))
     # overlapping / nested layouts (signed gaps)
     for strand in (PLUS, MINUS):
         for k in ((2, 3) if tier == "quick" else (2, 3, 4)):
